@@ -135,8 +135,13 @@ def run_case(c):
     if not c["hash_ok"]:
         labels.append("hash:invalid")
     if it["ok"] is None and c["hash_ok"]:
+        # an integral float / a boolean: refusing it is fine; taking it for the number it equals
+        # is fine too - but then it IS that number everywhere (text, digest, file, APDU)
         labels.append("iteration:undecided")
-        return Out(labels, False)
+        if sv is None:
+            return Out(labels, False)
+        it = dict(it, n=int(it["v"]))
+        valid = True
     if valid and sv is None and c["hash"] != c["hash"].lower():
         labels.append("non-lowercase-hash-refused")     # the docs show lowercase only
         return Out(labels, False)
